@@ -145,14 +145,15 @@ Theorem C01_glr_model_overlap_refuted :
 Proof. exact glr_model_overlap. Qed.
 Print Assumptions C01_glr_model_overlap_refuted.
 
-(* Tokenisation, for ALL tables, scanners, inputs, set orders, positions and fuel, with
-   consume_input on, under the condition that keeps the heads of one frontier in step: all
+(* Tokenisation, for ALL tables, scanners, inputs, set orders, positions, fuel and both
+   settings of consume_input, under the condition that keeps the heads of one frontier in step: all
    tokens found at one input position by any two states have one length (stated on the token
    lists the scanner model returns, so a lexical disambiguation that restores uniformity
    counts); STOP has no recognizer match and is never shifted; ACCEPT stands in the STOP column
    only; the layout skipper [sk] never retreats.  Then every tree of the returned forest has
-   leaves that begin right after the leading layout, are each matched by their recognizer,
-   follow one another separated by layout only, and only layout follows the last one.
+   leaves that begin right after the leading layout, are each matched by their recognizer and
+   follow one another separated by layout only (a tokenisation of a prefix of the input: C17);
+   with consume_input on only layout follows the last one.
    Together with C01_glr_model_sound: every tree is a derivation tree OF THE INPUT.
    Without the length condition the statement is false (C01_glr_model_overlap_refuted).
    Proof: a second invariant (Proofs/GLRTokProofs.v) assigning a raw position to every
@@ -162,7 +163,8 @@ From PV Require Import Proofs.GLRTokProofs Proofs.GLRTokFull.
 Theorem C01_glr_model_tokenisation :
   forall (g : grammar) (tb : table) (start : N),
     table_struct g tb start = true ->
-    forall (terms : list term_info) (rx : N -> N -> option N) (in_len stop_id : N) (lexdis : bool)
+    forall (terms : list term_info) (rx : N -> N -> option N) (in_len stop_id : N)
+           (consume lexdis : bool)
            (skipws : N -> skres) (rorder : list nat -> list nat -> list nat) (sk : N -> N),
       (forall p q, skipws p = SkOk q -> q = sk p) ->
       (forall p, p <= sk p) ->
@@ -170,16 +172,16 @@ Theorem C01_glr_model_tokenisation :
       (forall s s', ~ In (Shift s') (cell tb s stop_id)) ->
       (forall s y, In Accept (cell tb s y) -> y = stop_id) ->
       (forall s s' p y l y' l',
-         In (y, l) (tokens_at tb terms rx in_len stop_id true lexdis s p) ->
-         In (y', l') (tokens_at tb terms rx in_len stop_id true lexdis s' p) ->
+         In (y, l) (tokens_at tb terms rx in_len stop_id consume lexdis s p) ->
+         In (y', l') (tokens_at tb terms rx in_len stop_id consume lexdis s' p) ->
          y <> stop_id -> y' <> stop_id -> l = l') ->
       forall (fuel : nat) (pos : N) (nodes : forest) (root : nat),
-        glr_parse g tb terms rx in_len stop_id true lexdis skipws rorder fuel pos = GLRForest nodes root ->
+        glr_parse g tb terms rx in_len stop_id consume lexdis skipws rorder fuel pos = GLRForest nodes root ->
         forall t, unfolds (glr_forest nodes root) (pred (length (glr_forest nodes root))) t ->
           chain_ok sk (leaves t) /\ All (leaf_ok (tokok rx)) (leaves t) /\
           match bounds (leaves t) with
-          | None => sk pos = in_len
-          | Some (fs, le) => fs = sk pos /\ le <= in_len /\ sk le = in_len
+          | None => consume = true -> sk pos = in_len
+          | Some (fs, le) => fs = sk pos /\ (consume = true -> le <= in_len /\ sk le = in_len)
           end.
 Proof. exact glr_tok_sound. Qed.
 Print Assumptions C01_glr_model_tokenisation.
